@@ -1,6 +1,6 @@
 """C08 -- MAC command handling is consistent and atomic: the device does what it answers."""
 import re
-from .. import core, machist, macstage, lw
+from .. import chanops, core, machist, macstage, lw
 
 ID = "C08"
 THEOREMS = ["C08_answers_whole", "C08_answers_bounded", "C08_answers_in_order_trailing_dropped", "C08_rxparamsetup_atomic", "C08_rxtimingsetup_effect", "C08_rx1_delay_values",
@@ -214,6 +214,8 @@ def oracle(case, impl, model=None):
                                     return {"kind": "NewChannelReq(frequency 0) acknowledged but the channel still exists", "request": p.hex()}
                             elif ch is None or ch[0] != freq or ch[1] != p[4]:
                                 return {"kind": "NewChannelReq fully acknowledged but the channel was not created as commanded", "request": p.hex()}
+                            elif idx < 16 and not (pa2[1][idx // 8] >> (idx % 8)) & 1:
+                                return {"kind": "NewChannelReq fully acknowledged but the created / modified channel is not enabled", "request": p.hex(), "mask": pa2[1][:2]}
                             elif not (BAND[region][0] <= freq <= BAND[region][1]):
                                 return {"kind": "NewChannelReq with an out-of-band frequency was fully acknowledged", "request": p.hex()}
                     if c == 0x03:
@@ -223,6 +225,9 @@ def oracle(case, impl, model=None):
                                 return {"kind": "LinkADRReq fully acknowledged but data rate not as commanded", "before": b, "after": af}
                             if dr != 15 and dr not in machist.DEFINED[region]:
                                 return {"kind": "LinkADRReq with a data rate the region does not define was fully acknowledged", "request": p.hex()}
+                            pbm, pam = pending_reqs.get("plan_before"), pending_reqs.get("plan_after")
+                            if region not in (4, 8) and ((p[3] >> 4) & 7) == 0 and pam and pam[1][:2] != [p[1], p[2]]:
+                                return {"kind": "LinkADRReq fully acknowledged but the channel mask is not the commanded one", "request": p.hex(), "mask": pam[1][:2]}
                             if ((p[3] >> 4) & 7) == 7 and region not in (4, 8):
                                 return {"kind": "LinkADRReq with an RFU ChMaskCntl was fully acknowledged", "request": p.hex()}
                         elif (b[0], b[2]) != (af[0], af[2]):
@@ -241,7 +246,7 @@ def run(rep, tier, rng):
     if not core.build_both(rep):
         core.finish_proof_failures(rep)
         return
-    lines = gen(rng, tier)
+    lines = gen(rng, tier) + chanops.gen(rng, tier, lambda r: machist.draws(r, 40) + "," + ",".join(str(v) for v in range(32)))
     core.diff_stage(rep, "X:C08:mac-histories(commands)", lines, macstage.make_judge([], extra=oracle))
     known = core.load_known(ID)
     macstage.oracle_pass(rep, lines, [], extra=oracle)
